@@ -1040,7 +1040,7 @@ pub fn shrink(case: &Case) -> Vec<Case> {
     if case.source.contains('\r') {
         out.push(mk(case.source.replace("\r\n", "\n").replace('\r', "\n"), case.mode));
     }
-    for (i, c) in chars.iter().enumerate() {
+    for (i, c) in chars.iter().enumerate().take(if chars.len() <= 4000 { usize::MAX } else { 0 }) {
         if !c.is_ascii() && *c != model::BOM {
             let mut v = chars.clone();
             v[i] = 'a';
